@@ -70,6 +70,9 @@ def main():
                          % (", ".join(changed), ctx.boost))
     rel = getattr(mod, "THEOREM_FILE", "Properties/%s.v" % pid)
     evidence_path = os.path.join(C.VERIF, "evidence", "%s.json" % pid)
+    if os.path.realpath(C.REPO) != "/repo" or a.replay:
+        # runs against a scratch worktree (VERIF_REPO) or replays never touch the committed evidence
+        evidence_path = os.path.join(C.BUILD, "evidence_scratch", "%s.json" % pid)
     obligations = []
     discharged = []
     axioms = {}
